@@ -94,14 +94,18 @@ def worker(case):
     cdir = case["dir"]
     keep = False
     data = core.unb64(case["data"])
-    cid = core.h8([case["base"], case["seq"]])
+    cid = core.h8([case["base"], case["seq"], case.get("moves")])
     stats = {"sequences": 1}
     try:
         ref = zckref.decode(data)
         assert ref.valid, ref
         p = ref.parsed
         L = ["fopen 1 f.zck r input", "create 1", "init_read 1 1"]
+        mv = core.rng(case.get("moves") or 0, "C14", "moves")
         for k, kind in case["seq"]:
+            if case.get("moves") and mv.random() < 0.6:
+                # the application uses the descriptor itself between two requests (its own lseek on the shared offset)
+                L.append("seek 1 %d" % mv.choice([0, 1, len(data), len(data) // 2, mv.randrange(len(data) + 1)]))
             L.append("%s 1 %d" % ("chunkdata" if kind == "d" else "chunkcomp", k))
         rd = core.run_zh(case["zh"], cdir, "\n".join(L) + "\n", {"f.zck": data}, name="seq")
         if rd.timed_out and not rd.cpu_exceeded:
@@ -176,6 +180,24 @@ class C14(core.Check):
             for _ in range(20 if self.quick else 600):
                 ln = 12 if self.quick else 50
                 seqs.append([r.choice(reqs) for _ in range(ln)])
-            for s in seqs:
+            for si, s in enumerate(seqs):
                 out.append({"base": b["name"], "data": core.b64(b["data"]), "seq": [list(x) for x in s], "zh": ctx["zh"]})
+                if si % 5 == 0 and len(s) >= 2:
+                    out.append({"base": b["name"], "data": core.b64(b["data"]), "seq": [list(x) for x in s], "zh": ctx["zh"], "moves": 1 + si})
+        # chunks beyond the default 10 MiB maximum (manual chunking with the maximum raised), with and without a dictionary
+        import gen
+        for bi, (sizes_, dct) in enumerate([([3000, 12600000, 5000], False), ([11000000, 70000], True)] if True else []):
+            pieces = [gen.content("text", n_, 70 + bi * 5 + j) for j, n_ in enumerate(sizes_)]
+            seg = []
+            for pc in pieces:
+                seg += [len(pc), "e"]
+            data = basefiles.write_with_lib(ctx["zh"], os.path.join(self.work, "huge%d" % bi), b"".join(pieces), {"comp": 2, "manual": True, "level": 1, "cmax": 64 << 20, "chunk_hash": 1}, seg,
+                                            gen.content("license", 2000, 3) if dct else None)
+            if data is None:
+                continue
+            self.count("files_with_chunk_over_10MiB", 1)
+            n = len(zckref.parse(data).chunks)
+            bigk = 2 if bi == 0 else 1
+            for s in ([(bigk, "d"), (1 if bigk != 1 else 2, "d"), (bigk, "d"), (0, "d")], [(bigk, "d"), (n - 1, "d"), (n - 1, "c")], [(n - 1, "d"), (bigk, "d"), (bigk, "c"), (n - 1, "d")]):
+                out.append({"base": "huge%d" % bi, "data": core.b64(data), "seq": [list(x) for x in s], "zh": ctx["zh"]})
         return out
